@@ -81,6 +81,30 @@ type c01case struct {
 	data []byte
 }
 
+// tokenCapData: a prefix of every length around the point where a block's token buffer (32768 tokens) fills - one
+// literal per token for the pure Go finder, two for the assembly finders - followed by a long run, periodic data or
+// text, so that the last tokens of the full block are of every kind (literal pair, short match, 258-chains of a run).
+func tokenCapData(x *mc.Exec, seed uint64, content func(kind string, n int) []byte) ([]byte, string) {
+	pk := []string{"rand", "text"}[x.Choose(2, "prefix-kind")]
+	var n int
+	if x.Choose(2, "cap") == 0 {
+		n = 32690 + x.Choose(120, "prefix-len") // one literal per token (pure Go finder)
+	} else {
+		n = 65400 + x.Choose(200, "prefix-len") // two literals per token (assembly finder)
+	}
+	tk := x.Choose(3, "tail-kind")
+	var tail []byte
+	switch tk {
+	case 0:
+		tail = pieces.Zero(8192, 0)
+	case 1:
+		tail = pieces.Per(3000, 7, seed)
+	case 2:
+		tail = pieces.Text(3000, seed+5)
+	}
+	return append(append([]byte{}, content(pk, n)...), tail...), fmt.Sprintf("%s,%d + tail%d", pk, n, tk)
+}
+
 func c01Harness(cfg *Cfg) func(x *mc.Exec) {
 	kinds := allFlateKinds(cfg.Thorough)
 	var tiny [][]byte
@@ -152,25 +176,8 @@ func c01Harness(cfg *Cfg) func(x *mc.Exec) {
 			if !k.Accelerated() || k.Level == -2 {
 				return
 			}
-			pk := []string{"rand", "text"}[x.Choose(2, "prefix-kind")]
-			var n int
-			if x.Choose(2, "cap") == 0 {
-				n = 32690 + x.Choose(120, "prefix-len") // one literal per token (pure Go finder)
-			} else {
-				n = 65400 + x.Choose(200, "prefix-len") // two literals per token (assembly finder)
-			}
-			tk := x.Choose(3, "tail-kind")
-			var tail []byte
-			switch tk {
-			case 0:
-				tail = pieces.Zero(8192, 0)
-			case 1:
-				tail = pieces.Per(3000, 7, cfg.Seed)
-			case 2:
-				tail = pieces.Text(3000, cfg.Seed+5)
-			}
-			d := append(append([]byte{}, content(pk, n)...), tail...)
-			if _, _, ok := r.do(x, "C01", opWrite, d, fmt.Sprintf("W(%s,%d + tail%d)", pk, n, tk)); !ok {
+			d, dname := tokenCapData(x, cfg.Seed, content)
+			if _, _, ok := r.do(x, "C01", opWrite, d, "W("+dname+")"); !ok {
 				return
 			}
 			x.NonTrivial()
